@@ -36,7 +36,7 @@ def gates(tier):
                         "cfg.expected_length": 40 * k},
         "shapes": {c: 3 * k for c in ["nonlinear_scc", "repeated_symbol", "duplicate_rule", "unary_cycle", "nullable_cycle",
                                       "recursive", "finite_language", "sr:Log", "sr:MaxPlus", "sr:Expectation", "sr:Entropy",
-                                      "sr:Real", "sr:Boolean", "sr:MaxTimes", "finite-language-sum", "staged-build", "log-tiny-weights", "scale:big-grammar"]} | {"big-slow-scc": 1},
+                                      "sr:Real", "sr:Boolean", "sr:MaxTimes", "finite-language-sum", "staged-build", "log-tiny-weights", "scale:big-grammar"]} | {"big-slow-scc": 1, "scale:deep-chain": 1, "scale:slow-block": 1},
         "min_events": {"agenda.reordered": 200 * k},
         "min_hashseeds": 2,
     }
@@ -68,11 +68,96 @@ def gen_case(rng, spec):
         bigR = rng.choice(["Float", "Real", "Log", "Q", "Boolean", "MaxTimes", "MaxPlus"])
         bg = GG.gen_big_grammar(rng, recursion=bigR != "Q")
         return {"g": {k: bg[k] for k in ("S", "V", "rules")}, "R": bigR, "bigg": "big-grammar"}
+    if rng.random() < 0.006:
+        return scale_gadget(rng)
     if rng.random() < 0.04:
         case = big_cycle_case(rng)
     if rng.random() < 0.25 and len(g["rules"]) >= 3:
         case["staged"] = rng.randint(1, len(g["rules"]) - 1)
     return case
+
+
+def scale_gadget(rng):
+    """scale: (a) a right-linear chain of 300-420 nonterminals (each its own block; a unary 2-cycle hangs off every
+    few levels), evaluated under the interpreter's default recursion budget; (b) a block that exhausts the agenda's
+    default budget of 100000 updates (contraction 0.9997-0.9998) with further blocks downstream of it."""
+    from fractions import Fraction as Fr
+
+    if rng.random() < 0.6:
+        N = rng.randint(300, 420)
+        W = [Fr(1, 2), Fr(1, 4), Fr(3, 8)]
+        return {"gadget": "deep-chain", "N": N, "w": [rng.choice(W) for _ in range(N)], "v": [rng.choice(W) for _ in range(N)],
+                "cyc": sorted(rng.sample(range(N), N // 8)), "names": rng.choice(["str", "int-asc", "int-desc"]),
+                "R": rng.choice(["Float", "Real", "Log", "Boolean"]), "order": rng.randrange(1 << 30)}
+    return {"gadget": "slow-block", "q": rng.choice([Fr(9997, 10000), Fr(39999, 40000) - Fr(9, 40000), Fr(9998, 10000)]),
+            "R": rng.choice(["Float", "Real"]), "order": rng.randrange(1 << 30)}
+
+
+def run_gadget(case, ctx):
+    import math
+    import random as _random
+    from fractions import Fraction as Fr
+
+    from rv import codec, core, lib
+    from rv.core import close2
+
+    R = case["R"]
+    rules, Z = [], {}
+    if case["gadget"] == "deep-chain":
+        N, w, v = case["N"], case["w"], case["v"]
+        nm = {"str": lambda s, i: f"{s}{i}", "int-asc": lambda s, i: 2 * i + (s == "Y"), "int-desc": lambda s, i: 2 * (N - i) + (s == "Y")}[case["names"]]
+        cyc = set(case["cyc"])
+        nxt = Fr(0)
+        for i in reversed(range(N)):
+            X, Y = nm("X", i), nm("Y", i)
+            if i + 1 < N:
+                rules.append([w[i], X, ["a", nm("X", i + 1)]])
+            rules.append([v[i], X, ["a"]])
+            base = (w[i] * nxt if i + 1 < N else 0) + v[i]
+            if i in cyc:
+                # X -> 1/4 Y ; Y -> 1/2 X | 1/4 b   =>  X = (base + 1/16) / (1 - 1/8)
+                rules += [[Fr(1, 4), X, [Y]], [Fr(1, 2), Y, [X]], [Fr(1, 4), Y, ["b"]]]
+                Z[X] = (base + Fr(1, 16)) / (1 - Fr(1, 8))
+                Z[Y] = Fr(1, 2) * Z[X] + Fr(1, 4)
+            else:
+                Z[X] = base
+            nxt = Z[X]
+        S = nm("X", 0)
+        rtol = 1e-8
+    else:
+        q = case["q"]
+        rules = [[q, "X", ["a", "X"]], [Fr(1), "X", ["a"]], [1 - q, "S", ["X"]], [Fr(1, 2), "D", ["S", "S"]], [Fr(1, 2), "D", ["S", "b"]],
+                 [Fr(1, 2), "E", ["D", "a"]], [Fr(1, 4), "E", ["b"]]]
+        Z = {"X": 1 / (1 - q), "S": Fr(1), "D": Fr(1), "E": Fr(3, 4)}
+        S = "E"
+        rtol = 1e-6  # the slow block itself is cut off at the default budget (remaining error about 1e-10 relative)
+    _random.Random(case["order"]).shuffle(rules)
+    g = {"S": S, "V": ["a", "b"], "rules": rules}
+    ctx.case(codec.fingerprint(case), True, ["scale:" + case["gadget"], f"sr:{R}", "recursive"])
+    ctx.sample({"case": {k: v for k, v in case.items() if k not in ("w", "v", "cyc")}, "Z_S": float(Z[S])})
+
+    def cmp(have, X):
+        if R == "Boolean":
+            return bool(lib.have_value(R, have)) == (Z[X] != 0)
+        if R == "Log":
+            sc = float(have.score) if hasattr(have, "score") else float("nan")
+            return abs(sc - math.log(Z[X])) <= 1e-6
+        return close2(lib.have_value(R, have), float(Z[X]), rtol, 1e-12)
+
+    with core.default_recursion_budget(ctx):
+        ok, cfg = ctx.call("cfg.agenda()[X]", case, lib.build_cfg, g, R)
+        if not ok:
+            return
+        ok, A = ctx.call("cfg.agenda()[X]", case, cfg.agenda)
+        if ok:
+            for X in Z:
+                good = cmp(A[X], X)
+                mech = "agenda/value" + ("/starved-block" if (not good and lib.is_zero_value(R, A[X])) else "") + "/" + case["gadget"]
+                ctx.check("cfg.agenda()[X]", good, mech, dict(case, X=X), {"X": repr(X), "have": A[X], "want": float(Z[X])})
+        ok, t = ctx.call("cfg.treesum()", case, cfg.treesum)
+        if ok:
+            good = cmp(t, S)
+            ctx.check("cfg.treesum()", good, "treesum/value/" + case["gadget"], case, {"have": t, "want": float(Z[S])})
 
 
 def big_cycle_case(rng):
@@ -99,6 +184,8 @@ def run_case(case, ctx):
     from rv.gen import grammars as GG
     from rv.ref import cfgref
 
+    if case.get("gadget"):
+        return run_gadget(case, ctx)
     g, R = case["g"], case["R"]
     an = GG.analyse(g)
     cls = an["classes"]
